@@ -43,3 +43,52 @@ Fixpoint first_reject (nc nh : bool) (m : mon) (tr : list event) (i : nat) : opt
       | None => Some i
       end
   end.
+
+(** C16 *)
+(** The redirection word as the property states it: disable-all wins, then
+    enable-all, otherwise one disable bit per device class that is not enabled
+    (drive 0x01, printer 0x02, port 0x04, clipboard 0x08, plug-and-play 0x10). *)
+Definition spec_redir (clipboard port drive printer pnp disable_all enable_all : bool) : N :=
+  if disable_all then 1073741824
+  else if enable_all then 2147483648
+  else (if drive then 0 else 1) + (if printer then 0 else 2) + (if port then 0 else 4)
+       + (if clipboard then 0 else 8) + (if pnp then 0 else 16).
+
+Definition spec_idle (idle : Z) : N := Z.to_N (Z.max 0 idle).
+
+(** Is [raw] a well-formed response of type [ty] carrying status [status]; for
+    the tunnel-authorization response also: does it report the configured policy. *)
+Definition c16_resp_ok (redir : N) (idle : Z) (ty status : N) (raw : bytes) : bool :=
+  match decode_packet raw with
+  | None => false
+  | Some pk =>
+      (pk_type pk =? ty) && (pk_reserved pk =? 0) && (pk_length pk =? blen raw) &&
+      if ty =? PKT_TYPE_HANDSHAKE_RESPONSE then
+        match decode_handshake_response (pk_body pk) with
+        | Some (r, []) => hr_status r =? status
+        | _ => false
+        end
+      else if ty =? PKT_TYPE_TUNNEL_RESPONSE then
+        match decode_tunnel_response (pk_body pk) with
+        | Some (r, []) => tr_status r =? status
+        | _ => false
+        end
+      else if ty =? PKT_TYPE_TUNNEL_AUTH_RESPONSE then
+        match decode_tunnel_auth_response (pk_body pk) with
+        | Some (r, []) =>
+            (ta_status r =? status)
+            && match ta_redir r with Some v => v =? redir | None => false end
+            && match ta_idle r with
+               | Some v => if ((-2147483648 <=? idle) && (idle <=? 2147483647))%Z
+                           then v =? spec_idle idle else true
+               | None => false
+               end
+        | _ => false
+        end
+      else if (ty =? PKT_TYPE_CHANNEL_RESPONSE) || (ty =? PKT_TYPE_CLOSE_CHANNEL_RESPONSE) then
+        match decode_channel_response (pk_body pk) with
+        | Some (r, []) => cr_status r =? status
+        | _ => false
+        end
+      else false
+  end.
